@@ -274,6 +274,9 @@ func genTyped(r *rand.Rand) string {
 		return []string{"abc", "12x", "x12", "1 2", "--1", "1.2.3", "yes", "on", "0x", "1e", "tru", "nan()"}[r.Intn(12)]
 	case 5:
 		return strconv.FormatInt(r.Int63()-r.Int63(), 10)
+	case 6:
+		// zero-padded decimals are decimals; base prefixes and digit separators are not
+		return []string{"010", "0100", "08", "-019", "00060000", "007", "00", "-010", "0x10", "0X1F", "0b101", "0o17", "1_000", "-0x8"}[r.Intn(14)]
 	}
 	return strconv.Itoa(r.Intn(100000))
 }
@@ -404,6 +407,33 @@ func checkComplete(c *conf.Conf, root *domain, skipDom *domain, skipKey, skipLin
 	return ""
 }
 
+// scribble does to every listing what callers do to slices and maps they own: overwrite, reorder, extend.
+func scribble(c *conf.Conf, root *domain) {
+	var doms []*domain
+	root.all(&doms)
+	edit := func(l []string) {
+		for i := range l {
+			l[i] = "~edited by the caller~"
+		}
+		l = append(l, "~appended by the caller~")
+		_ = l
+	}
+	for _, d := range doms {
+		for _, p := range []string{d.path, d.path + "/"} {
+			edit(c.GetDomainLine(p))
+			edit(c.GetDomainKey(p))
+			edit(c.GetDomain(p))
+			m := c.GetMap(p)
+			for k := range m {
+				m[k] = "~edited by the caller~"
+			}
+			if m != nil {
+				m["~added by the caller~"] = "x"
+			}
+		}
+	}
+}
+
 func checkTyped(c *conf.Conf, typed []typedEntry) string {
 	for _, t := range typed {
 		txt := strings.Trim(t.text, ws)
@@ -413,7 +443,8 @@ func checkTyped(c *conf.Conf, typed []typedEntry) string {
 			wantI, okI = int(v), true
 		}
 		malformed := clearlyMalformed(txt)
-		if okI || malformed || outOfRange(txt, 64) {
+		malformedInt := malformed || notADecimal(txt)
+		if okI || malformedInt || outOfRange(txt, 64) {
 			if g := c.GetIntWithDef(t.path, 7777); g != wantI {
 				return fmt.Sprintf("GetIntWithDef(%q, 7777) = %d for text %q, want %d", t.path, g, txt, wantI)
 			}
@@ -422,7 +453,7 @@ func checkTyped(c *conf.Conf, typed []typedEntry) string {
 		if v, err := strconv.ParseInt(txt, 10, 64); err == nil && canonicalInt(txt) && v >= math.MinInt32 && v <= math.MaxInt32 {
 			want32, ok32 = int32(v), true
 		}
-		if ok32 || malformed || outOfRange(txt, 32) {
+		if ok32 || malformedInt || outOfRange(txt, 32) {
 			if g := c.GetInt32WithDef(t.path, 7777); g != want32 {
 				return fmt.Sprintf("GetInt32WithDef(%q, 7777) = %d for text %q, want %d", t.path, g, txt, want32)
 			}
@@ -489,6 +520,16 @@ func outOfRange(s string, bits int) bool {
 	}
 	_, err := strconv.ParseInt(s, 10, bits)
 	return err != nil
+}
+
+// notADecimal: texts that are integers only under another base or digit-separator convention; the
+// integer getters read decimal.
+func notADecimal(s string) bool {
+	switch s {
+	case "0x10", "0X1F", "0b101", "0o17", "1_000", "-0x8", "0x":
+		return true
+	}
+	return false
 }
 
 func clearlyMalformed(s string) bool {
@@ -674,6 +715,17 @@ func main() {
 		if diff := checkTyped(res.c, typed); diff != "" {
 			run.Violation("typed-getter", classify(diff), diff, map[string]interface{}{"document": text, "difference": diff})
 		}
+		// what a getter hands out belongs to the caller: a caller that sorts, edits or extends a
+		// listing does not rewrite the configuration — every later query still answers from the document
+		if i%2 == 1 {
+			scribble(res.c, d.root)
+			run.Eval(1)
+			if diff := checkComplete(res.c, d.root, nil, "", ""); diff != "" {
+				run.Violation("model-mismatch", "after-caller-edited-a-listing:"+classify(diff), "after a caller modified the listings it had been handed: "+diff, map[string]interface{}{"document": text, "difference": diff})
+				continue
+			}
+			run.Add("documents_requeried_after_caller_edited_listings", 1)
+		}
 		// the same document through the file entry point (every 8th): what is on disk is what is parsed
 		if i%8 == 3 {
 			dir := os.Getenv("VERIF_BUILD")
@@ -733,7 +785,9 @@ func main() {
 	// ---- hostile ----
 	hr := run.Rand("hostile")
 	nh := run.Pick(20000, 1000000)
-	frags := []string{"<a>", "</a>", "<b>", "</b>", "k=v\n", "<", ">", "&", "&amp;", "&#x0;", "<!--", "-->", "<![CDATA[", "]]>", "<?xml", "?>", "<a b='c'>", "<a:b>", "</", "/>", "=", "#", "\n", "\x00", "\xff", "<a", "''", "\"", "<a>\n<b>\nk=v\n</b>\n</a>\n"}
+	frags := []string{"<a>", "</a>", "<b>", "</b>", "k=v\n", "<", ">", "&", "&amp;", "&#x0;", "<!--", "-->", "<![CDATA[", "]]>", "<?xml", "?>", "<a b='c'>", "<a:b>", "</", "/>", "=", "#", "\n", "\x00", "\xff", "<a", "''", "\"", "<a>\n<b>\nk=v\n</b>\n</a>\n",
+		// a key and a domain of one name
+		"a\n", "a=1\n", "b\n", "k\n", "<k>", "</k>", "a<a>a</a>"}
 	for i := 0; i < nh; i++ {
 		var sb strings.Builder
 		if hr.Intn(3) == 0 {
